@@ -236,9 +236,13 @@ def r15_4(ctx):
 
 @rule("R15.7", "C15", "what is sequenced is emitted: BRANCH and REPEAT reference every effect they were built from, whatever the condition is", min_instances=30)
 def r15_7(ctx):
-    from .c05 import branch_emits_both_arms
+    from .c05 import branch_emits_both_arms, sequence_emits_every_member
 
     branch_emits_both_arms(ctx)
+    sequence_emits_every_member(ctx)  # ... and SEQN every member of the sequence, however long it is
+    from .c10 import temporary_constructor_keeps_the_type
+
+    temporary_constructor_keeps_the_type(ctx)  # ... and the pending pair of an operation holds the operation itself (not a conversion of its value, which a sequence drops)
 
 
 @rule("R15.5", "C15", "a node is never replaced by an unrelated operand of the same name (its statements would vanish from the instruction)", min_instances=6)
